@@ -100,6 +100,33 @@ type EmbCaseV struct {
 	N int
 }
 
+// A struct type that is embedded somewhere with one of its members shadowed (ShDoc.ID hides ShAudit.ID) or
+// ambiguous (ShAmb: X of ShAmbA and of ShAmbB) and used again, un-embedded, later in the same root type: what
+// the embedding prunes must not leak into the other use.
+type ShAudit struct {
+	ID     int
+	Author string
+}
+type ShDoc struct {
+	ShAudit
+	ID string
+}
+type ShBundle struct {
+	Doc  ShDoc
+	Last ShAudit
+}
+type ShAmbA struct{ X, Y int }
+type ShAmbB struct{ X, Z int }
+type ShAmb struct {
+	ShAmbA
+	ShAmbB
+}
+type ShAmbUse struct {
+	Amb ShAmb
+	A   ShAmbA
+	B   *ShAmbB
+}
+
 // Rec is a recursive type.
 type Rec struct {
 	V    int
@@ -188,6 +215,7 @@ func EncLeaves() []reflect.Type {
 		reflect.TypeOf(MI(0)), reflect.TypeOf(TS("")), reflect.TypeOf(TU8(0)), reflect.TypeOf(MSl(nil)),
 		reflect.TypeOf(Plain{}), reflect.TypeOf(RecP{}), reflect.TypeOf(MW{}),
 		reflect.TypeOf(EmbPtr{}), reflect.TypeOf(EmbCase{}), reflect.TypeOf(EmbCaseV{}),
+		reflect.TypeOf(ShBundle{}), reflect.TypeOf(ShAmbUse{}),
 	}
 }
 
@@ -205,6 +233,7 @@ func DecLeaves() []reflect.Type {
 		reflect.TypeOf(UJ{}), reflect.TypeOf(UT{}), reflect.TypeOf(UI(0)), reflect.TypeOf(UTS("")),
 		reflect.TypeOf(Plain{}), reflect.TypeOf(RecP{}),
 		reflect.TypeOf(EmbPtr{}), reflect.TypeOf(EmbCase{}), reflect.TypeOf(EmbCaseV{}),
+		reflect.TypeOf(ShBundle{}), reflect.TypeOf(ShAmbUse{}),
 	}
 }
 
@@ -284,7 +313,12 @@ func Types(level int, decode bool) []reflect.Type {
 	// field name): quotes, backslash, HTML specials, space, non-ASCII, line separators, the
 	// special name "-"
 	for _, n := range TagZoo {
-		add(reflect.StructOf([]reflect.StructField{{Name: "F", Type: TInt, Tag: reflect.StructTag(`json:` + strconv.Quote(n))}, {Name: "G", Type: TString}}))
+		zt := reflect.StructOf([]reflect.StructField{{Name: "F", Type: TInt, Tag: reflect.StructTag(`json:` + strconv.Quote(n))}, {Name: "G", Type: TString}})
+		add(zt)
+		// ... and behind every constructor: the key text of a member is compiled once per way of reaching the struct
+		for _, w := range Wrap1(zt, []string{``}, decode) {
+			add(w)
+		}
 	}
 	for _, l := range small {
 		add(reflect.PtrTo(reflect.PtrTo(l)))
